@@ -71,8 +71,14 @@ static void tree_text(int n, sb_t *o)
 		break;
 	}
 }
+static char deepdesc[64];
 static void describe(sb_t *o)
 {
+	if (deepdesc[0])
+	{
+		sb_puts(o, deepdesc);
+		return;
+	}
 	sb_puts(o, "tree=");
 	if (NN)
 		tree_text(0, o);
@@ -366,8 +372,108 @@ static void gen_rec(int i)
 	}
 }
 
+/* ---- scale: a chain of containers deeper than any limit in the library (trees built through the API
+ * or parsed with a large depth limit can be that deep); every node is still visited ---- */
+static int deep_calls, deep_first, deep_second, deep_stop_at, deep_bad;
+static int deep_cb(json_object *jso, int flags, json_object *parent, const char *key, size_t *index, void *ud)
+{
+	(void)ud;
+	(void)parent;
+	(void)key;
+	(void)index;
+	if (flags & JSON_C_VISIT_SECOND)
+		deep_second++;
+	else
+		deep_first++;
+	if ((flags & JSON_C_VISIT_SECOND) && !json_object_is_type(jso, json_type_array) && !json_object_is_type(jso, json_type_object))
+		deep_bad = 1;
+	deep_calls++;
+	if (deep_stop_at && deep_calls == deep_stop_at)
+		return JSON_C_VISIT_RETURN_STOP;
+	return JSON_C_VISIT_RETURN_CONTINUE;
+}
+static void fam_deep(void)
+{
+	static const int depths[] = {31, 32, 33, 40, 100, 1000};
+	for (unsigned di = 0; di < sizeof depths / sizeof depths[0]; di++)
+		for (int how = 0; how < 2; how++)
+		{
+			int D = depths[di];
+			snprintf(deepdesc, sizeof deepdesc, "deep chain depth=%d built=%s", D, how ? "parsed" : "api");
+			if (!mc_case_begin())
+				continue;
+			struct json_object *root;
+			if (how == 0)
+			{
+				/* innermost first: [7,"s"] wrapped alternately in an object member and an array */
+				struct json_object *v = json_object_new_array();
+				json_object_array_add(v, json_object_new_int(7));
+				json_object_array_add(v, json_object_new_string("s"));
+				for (int i = 1; i < D; i++)
+				{
+					struct json_object *w;
+					if (i & 1)
+					{
+						w = json_object_new_object();
+						json_object_object_add(w, "k", v);
+						json_object_object_add(w, "z", NULL);
+					}
+					else
+					{
+						w = json_object_new_array();
+						json_object_array_add(w, v);
+						json_object_array_add(w, json_object_new_int(i));
+					}
+					v = w;
+				}
+				root = v;
+			}
+			else
+			{
+				sb_t t = {0};
+				for (int i = D - 1; i >= 1; i--)
+					sb_puts(&t, (i & 1) ? "{\"k\":" : "[");
+				sb_puts(&t, "[7,\"s\"]");
+				for (int i = 1; i < D; i++)
+					sb_puts(&t, (i & 1) ? ",\"z\":null}" : ",1]");
+				struct json_tokener *tok = json_tokener_new_ex(D + 2);
+				root = json_tokener_parse_ex(tok, sb_str(&t), (int)t.n + 1);
+				json_tokener_free(tok);
+				sb_free(&t);
+				if (!root)
+				{
+					mc_violation("harness:deep-document-not-parsed", "could not build the %d-deep document", D);
+					continue;
+				}
+			}
+			/* D containers; nodes: D containers + (D-1) extra siblings + 2 leaves */
+			int nodes = D + (D - 1) + 2;
+			for (int stop = 0; stop < 3; stop++)
+			{
+				deep_calls = deep_first = deep_second = deep_bad = 0;
+				deep_stop_at = stop == 0 ? 0 : stop == 1 ? D + 1 /* the innermost 7 */ : 2;
+				MC_COUNT("calls", 1);
+				int rc = json_c_visit(root, 0, deep_cb, NULL);
+				int want_calls = stop == 0 ? nodes + D : deep_stop_at;
+				if (rc != 0 || deep_calls != want_calls || deep_bad || (stop == 0 && (deep_first != nodes || deep_second != D)))
+					mc_violation("call-sequence-differs", "%d-deep chain (%s), stop=%d: json_c_visit returned %d after %d calls (%d first, %d second); reference: 0 after %d calls (%d first, %d second)", D,
+					             how ? "parsed" : "built through the API", stop, rc, deep_calls, deep_first, deep_second, want_calls, stop == 0 ? nodes : -1, stop == 0 ? D : -1);
+			}
+			json_object_put(root);
+			if (vf_live())
+			{
+				mc_violation("leak", "%ld blocks live", vf_live());
+				mc_restart_worker();
+			}
+			mc_nontrivial(mc_hash_str(deepdesc));
+			mc_sample_current();
+		}
+	deepdesc[0] = 0;
+}
+
 static void enumerate(void)
 {
+	fam_deep();
 	int maxn = (int)mc_opt_int("nodes", mc_tier ? 7 : 5);
 	(void)gen_children;
 	for (target_nodes = 1; target_nodes <= maxn; target_nodes++)
